@@ -89,7 +89,7 @@ def build(nres, extras, ff):
         elif attach[0] == 'extra':
             anchors = [extra_keys[attach[1]]]
             resid = mol.nodes[anchors[0]]['resid']
-        elif attach[0] == 'free':
+        elif attach[0] in ('free', 'free-first'):
             # recorded inside a residue but bonded to nothing (an ion, a stray atom, bonds taken from names only)
             anchors = []
             resid = attach[1] + 1
@@ -107,6 +107,14 @@ def build(nres, extras, ff):
             mol.add_edge(key, anchor)
         extra_keys.append(key)
         key += 1
+    first = [extra_keys[i] for i, extra in enumerate(extras) if extra[1][0] == 'free-first']
+    if first:
+        # the same molecule with those atoms LISTED first (node order is the order of the input file)
+        ordered = vermouth.molecule.Molecule(force_field=ff)
+        for node in first + [n for n in mol.nodes if n not in first]:
+            ordered.add_node(node, **mol.nodes[node])
+        ordered.add_edges_from(mol.edges)
+        mol = ordered
     return mol, extra_keys
 
 
@@ -319,6 +327,7 @@ def all_extras(nres, max_extra):
     bridges = [('bridge', a, b) for a in range(nres) for b in range(a + 1, nres)]
     first = [(e, s) for e in ELEMENTS for s in sites] + [('S', b) for b in bridges]
     first += [(e, ('free', r)) for e in ('H', 'S', 'P') for r in range(nres)]
+    first += [('H', ('free-first', r)) for r in range(nres)]
     yield ()
     for one in first:
         yield (one,)
